@@ -70,6 +70,9 @@ type Env struct {
 	// PreCheckPct: share of the transactions that are simulated (a third) or sent through CheckTx
 	// (two thirds) right before they are delivered
 	PreCheckPct int
+	// DupSignersPct: share of the generated enterprise signer lists that name accounts repeatedly
+	// (only where no oracle depends on the statement's - ambiguous - signer count for such lists)
+	DupSignersPct int
 	// GovRollbackPct: share of single-message governance proposals that get a failing second message
 	GovRollbackPct int
 	// GovExecBlockTxs: delivered (once) in the block whose EndBlock executes the next proposal
